@@ -204,6 +204,13 @@ class Env:
                 if self.counts.get(name) == 1 + self.aug.get(name, 0) and name not in self.params:
                     self.defs[name] = s.value
                     self.def_line[name] = s.lineno
+            if (isinstance(s, ast.Assign) and len(s.targets) > 1 and not in_loop and all(isinstance(t, ast.Name) for t in s.targets)
+                    and (chain(s.value) is not None or isinstance(s.value, ast.Constant))):
+                # chained assignment of a side-effect free value: every target is an alias of it
+                for t in s.targets:
+                    if self.counts.get(t.id) == 1 and t.id not in self.params:
+                        self.defs[t.id] = s.value
+                        self.def_line[t.id] = s.lineno
             if (isinstance(s, ast.Assign) and len(s.targets) == 1 and not in_loop
                     and isinstance(s.targets[0], ast.Tuple) and isinstance(s.value, ast.Tuple)
                     and len(s.targets[0].elts) == len(s.value.elts)):
